@@ -225,6 +225,29 @@ def tlapm(ctx, module, timeout=600, expect_fail=False):
     return rec
 
 
+def apalache(ctx, module, init, inv, length, cinit='ConstInit', expect_error=False, timeout=1200):
+    """Apalache (symbolic): --init/--inv/--length on a typed module; used for inductive-invariant checks (Init => Inv at length 0,
+    Inv /\\ Next => Inv' at length 1).  A counterexample is a defect of the specification (exit 2), never a violation."""
+    d = _specdir(ctx, 'apalache.%s.%s.%s' % (module, init, inv))
+    t0 = time.time()
+    try:
+        rc, out = sh(['apalache-mc', 'check', '--cinit=' + cinit, '--init=' + init, '--inv=' + inv, '--length=%d' % length, module + '.tla'], cwd=d, timeout=timeout)
+    except subprocess.TimeoutExpired:
+        raise Inconclusive('apalache timed out on %s %s/%s' % (module, init, inv))
+    ok = 'The outcome is: NoError' in out
+    err = 'The outcome is: Error' in out
+    rec = dict(module=module, init=init, inv=inv, length=length, ok=ok, wall_s=round(time.time() - t0, 1))
+    shutil.rmtree(d, ignore_errors=True)
+    if expect_error:
+        if not err:
+            raise Inconclusive('negative control %s %s/%s: apalache found no counterexample' % (module, init, inv))
+        return rec
+    if not ok:
+        raise Inconclusive('specification defect: apalache did not verify %s %s/%s\n%s' % (module, init, inv, out[-3000:]))
+    ctx.symbolic = getattr(ctx, 'symbolic', []) + [rec]
+    return rec
+
+
 # ---- tiny parser for TLC-printed values
 def parse_tla(s):
     pos = [0]
@@ -448,6 +471,8 @@ def finish(ctx, level, coverage, assumptions=()):
     cov.setdefault('traces_validated_against_impl', ctx.traces)
     cov['mc_runs'] = ctx.mc_runs
     cov['trace_runs'] = ctx.trace_runs
+    if getattr(ctx, 'symbolic', None):
+        cov['apalache_runs'] = ctx.symbolic
     if getattr(ctx, 'proofs', None):
         cov['tlaps_proofs'] = ctx.proofs
         cov['obligations'] = sum(p['obligations'] for p in ctx.proofs)
